@@ -41,6 +41,12 @@ def verify(sdir, props, tier="quick"):
         rc0, out0 = run([PY, "demo_seeded.py"], repo, {"PYTHONPATH": repo})
         rc, out = run(["git", "apply", os.path.join(sdir, "patch.diff")], repo)
         if rc:
+            # the context moved (a later repair touched the lines nearby): apply with fuzz and store the refreshed patch
+            rc, out = run(["patch", "-p1", "-F3", "--no-backup-if-mismatch", "-i", os.path.join(sdir, "patch.diff")], repo)
+            if not rc:
+                _, refreshed = run(["git", "diff", "--", "func_adl"], repo)
+                open(os.path.join(sdir, "patch.diff"), "w").write(refreshed)
+        if rc:
             print("PATCH DOES NOT APPLY to the current /repo (meta.json left untouched):", out)
             return meta
         rcs, outs = run([PY, "-m", "pytest", "-q", "-p", "no:cacheprovider", "--timeout=900"], repo, {"PYTHONPATH": repo})
